@@ -64,3 +64,13 @@ HARNESSES.append(
          undefined_ok="*", cbmc_flags=["--object-bits", "10"],
          unwind=12, unwindset={"vf_bytes:/./": 60, "checkAsnOidDatabase:/while \\(1\\)/": 8, "memcmp.0": 26, "getAsnOID:/./": 60},
          cases=[dict(name="size28", defs={"VF_SIZE": 28})]))
+
+HARNESSES.append(
+    dict(name="crl_parse", src="crl_parse.c", checks=M, units=["crypto/keyformat/asn1.c"],
+         renames={"crypto/keyformat/crl.c": ["psX509FreeCRL"]},
+         functions=["psX509ParseCRL", "psX509GetCRLVersion", "getAsnSequence32", "getAsnInteger", "getAsnAlgorithmIdentifier", "getAsnLength"],
+         sources=["crypto/keyformat/crl.c", "crypto/keyformat/asn1.c"],
+         assumptions=["crl_parse: input is an object of exactly 40 bytes, contents arbitrary; psX509GetDNAttributes / getSerialNum / getExplicitExtensions / psX509GetSignature are checking stubs (window inside the input, consume an arbitrary part); psComputeHashForSig checks its range; allocation succeeds"],
+         undefined_ok="*", cbmc_flags=["--object-bits", "10"],
+         unwind=12, unwindset={"vf_bytes:/./": 60, "checkAsnOidDatabase:/while \\(1\\)/": 8, "memcmp.0": 26, "getAsnOID:/./": 60, "psX509ParseCRL:/while \\(glen > 0\\)/": 12},
+         cases=[dict(name="size40", defs={"VF_SIZE": 40})]))
